@@ -14,4 +14,5 @@ namespace OwnB64 {
 void Rt(const std::string &s, long es, long ds, std::ostream &os) { OpRt("own", s, es, ds, os); }
 void Dec(const std::string &e, long split, std::ostream &os) { OpDec("own", e, split, os); }
 void Rt3(std::ostream &os) { OpRt3("own", os); }
+void RtAll(const std::string &p, std::ostream &os) { OpRtAll("own", p, os); }
 }
